@@ -470,20 +470,33 @@ func (r *runner) do(op M) M {
 	case "addsubnet", "rmsubnet":
 		// a byte-aligned IPv4 subnet given as a textual prefix ("10.1." = 10.1.0.0/16): the interface then accepts every
 		// destination inside it. The event carries key = "net:" + prefix for the trace spec.
+		// ... or any IPv4 prefix as cidr = "a.b.c.d/len" (key = "cidr:" + that text; which destinations lie inside is told to
+		// the trace spec by the scenario: field innets of the injections)
 		pre := gets(op, "prefix", "")
 		parts := strings.Split(strings.TrimSuffix(pre, "."), ".")
 		ab, mb := make([]byte, 4), make([]byte, 4)
-		for i, p := range parts {
-			if i < 4 {
-				n, _ := strconv.Atoi(p)
-				ab[i], mb[i] = byte(n), 0xff
+		key := "net:" + pre
+		if c := gets(op, "cidr", ""); c != "" {
+			key = "cidr:" + c
+			sl := strings.Split(c, "/")
+			copy(ab, []byte(addrOf(sl[0])))
+			bits, _ := strconv.Atoi(sl[1])
+			for i := 0; i < bits && i < 32; i++ {
+				mb[i/8] |= 0x80 >> uint(i%8)
+			}
+		} else {
+			for i, p := range parts {
+				if i < 4 {
+					n, _ := strconv.Atoi(p)
+					ab[i], mb[i] = byte(n), 0xff
+				}
 			}
 		}
 		sn, serr := tcpip.NewSubnet(tcpip.Address(ab), tcpip.AddressMask(mb))
 		if serr != nil {
-			vh.Fatal("subnet %q: %v", pre, serr)
+			vh.Fatal("subnet %q: %v", key, serr)
 		}
-		res["key"] = "net:" + pre
+		res["key"] = key
 		if name == "addsubnet" {
 			res["err"] = errStr(st.AddSubnet(tcpip.NICID(geti(op, "nic", 1)), wire.ProtoIPv4, sn))
 		} else {
